@@ -324,8 +324,9 @@ pub fn run(args: &Args) -> i32 {
 
     // ---- random stratum
     let n = match prop {
-        "C14" => args.scale(6_000, 60_000),
-        _ => args.scale(12_000, 150_000),
+        "C14" => args.scale(320_000, 6_400_000),
+        "C02" => args.scale(160_000, 2_400_000),
+        _ => args.scale(96_000, 1_600_000),
     };
     for i in 0..n {
         if !args.mine(i) {
